@@ -6,7 +6,12 @@ reported, nothing delivered") on what the real client did.
 case     : `stack=tlcp|dtlcp suite=ecc-gcm|ecc-cbc|ecdhe-gcm|ecdhe-cbc scen=<name> skip=0|1 peer=real|script
             certmsg=b ncerts=n parse=b c0=<kind>:<chainOK>:<id>|- c1=…|-
             skx=b wf=b sigvalid=b signer=<id> scr=this|old ssr=this|old sparams=<id>|carried|other|none intact=b
-            creq=b clienc=b done=b ckx=b fin=b sess=none|<n>:<chainSigNow>:<chainEncNow> sresume=b sfin=b`
+            creq=b clienc=b done=b ckx=b fin=b sess=none|<n>:<chainSigNow>:<chainEncNow> sresume=b sfin=b
+            [sevict=none|window|afterload psecret=session|zeros|empty|other|none]`
+           (`sevict`: when the client's cache evicted the session relative to `loadSession`;
+            `psecret`: the master secret the peer computed its Finished with — scenario ground
+            truth; `sfin`: the driver's own comparison of that secret with the session's.  Both
+            optional: absent = no eviction, the peer's secret is the session's iff `sfin`.)
 observed : `client=completed|failed(<class>) resumed=b hs_complete=b read=<n>`
 
 The model is run over the *symbolic* description of the signature (who signed, over which
@@ -126,6 +131,16 @@ def judge (c o : String) : Option Verdict := do
   let sess ← (kv t "sess").bind parseSess
   let sresume ← kvBool t "sresume"
   let sfin ← kvBool t "sfin"
+  let sevict := (kv t "sevict").getD "none"
+  let psecretS := (kv t "psecret").getD (if sfin then "session" else "none")
+  let psecret : Option Secret ← (match psecretS with
+    | "session" => some (some Secret.session)
+    | "zeros" => some (some Secret.zeros)
+    | "empty" => some (some Secret.empty)
+    | "other" => some (some Secret.other)
+    | "none" => some none
+    | _ => none)
+  if sevict != "none" && sevict != "window" && sevict != "afterload" then none
   let ob ← parseObs o
   -- the view of the model
   let extra : CertView String String := { key := "extra", kind := .ecdsa, chainOK := true, der := "extra" }
@@ -139,8 +154,9 @@ def judge (c o : String) : Option Verdict := do
       certReq := creq, clientEncCert := clienc, helloDone := done, ckxOK := ckx, finishedOK := fin }
   let sv : Option SessView := sess.map fun (n, a, b) =>
     { nCerts := n, chainSig := a, chainEnc := b, serverResumes := sresume, versOK := true, suiteOK := true,
-      masterPresent := true, finishedOK := sfin }
+      evictedInWindow := sevict == "window", evictedAfterLoad := sevict == "afterload", peerFin := psecret }
   let res := connect (paramsOf st) symVerify skip { session := sv, full := full }
+  let mDidResume := didResume (paramsOf st) skip ({ session := sv, full := full } : ConnView String String String SymSig)
   let mCompleted := res.result.outcome.isCompleted
   let mStage := match res.result.outcome with
     | .completed => "-"
@@ -148,7 +164,7 @@ def judge (c o : String) : Option Verdict := do
   -- prediction in the observation syntax; the error class is finer than the property
   let clsShown := if !mCompleted && !ob.completed then ob.cls else mStage
   let model :=
-    s!"client={if mCompleted then "completed" else s!"failed({clsShown})"} resumed={b01 (res.resumed && mCompleted)} hs_complete={b01 (res.result.handshakeStatus == 1)} read={if mCompleted then probeLen else 0}"
+    s!"client={if mCompleted then "completed" else s!"failed({clsShown})"} resumed={b01 mDidResume} hs_complete={b01 (res.result.handshakeStatus == 1)} read={if mCompleted then probeLen else 0}"
   let note :=
     if !mCompleted && !ob.completed && !stageMatches mStage ob.cls then s!"stage:model={mStage},impl={ob.cls}"
     else if mCompleted && ob.completed && !res.resumed &&
@@ -169,8 +185,12 @@ def judge (c o : String) : Option Verdict := do
     | true, a :: b :: _ => wf && a.kind == .ecdsa && symVerify a.key (clientTbs full { wellFormed := wf, ecdhParams := "carried", sig := sig } b.der) sig
     | _, _ => false
   let lawBroken := skxP && ncerts ≥ 2 && parse && (symValid != (sigvalid && wf))
+  -- symbolic reading of the peer's secret vs the driver's byte comparison with the session's
+  let secretLawBroken := sess.isSome && sresume && (sfin != (psecret == some Secret.session))
   let spec :=
-    if lawBroken then
+    if secretLawBroken then
+      some ("finished-content", s!"by construction of the scenario the peer computes its Finished with psecret={psecretS}, but comparing the secret it really used with the cached session's says sfin={b01 sfin} (the scenario is wrong)")
+    else if lawBroken then
       some ("signature-content", s!"by construction of the scenario the signature is {if symValid then "valid" else "invalid"} over this handshake's randoms and parameters, but an independent SM2 verification over exactly those bytes says sigvalid={b01 sigvalid}: the peer signs other bytes than the standard's (or the scenario is wrong)")
     else Spec.ClientAuthn.judge (!skip) ev sev observation
   pure { model := model, spec := spec, note := note }
